@@ -294,7 +294,7 @@ func selftest() int {
 			bad++
 		}
 	}
-	for _, f := range append(append([]string{}, c07Positions...), c10Starts...) {
+	for _, f := range append(append(append([]string{}, c07Positions...), c10Starts...), c06MateEndings...) {
 		b, err := rc.ParseFEN(f)
 		if err != nil || b.Validate() != nil || !epConsistent(b) || !castleConsistent(b) {
 			fmt.Fprintln(realStdout, "selftest: invalid extra position", f)
